@@ -9,8 +9,8 @@ for d in seeded/*/; do
     ids=$(python3 -c "import json;print(' '.join(json.load(open('$d/meta.json'))['check_with']))")
     out=$(TIER=${1:-quick} ./tools/try_seeded.sh "$d/patch.diff" $ids 2>&1)
     if grep -q "not-caught-out-of-domain" "$d/meta.json"; then echo "$n OUT-OF-DOMAIN (kept for the record, see meta.json)"; continue; fi
-    if echo "$out" | grep -q "^VIOLATION property="; then
-        echo "$n CAUGHT by $(echo "$out" | grep -o "rule=[A-Za-z0-9.-]*" | head -1) $(echo "$out" | grep -o "case_index=[0-9]*" | head -1)"
+    if echo "$out" | grep -aq "^VIOLATION property="; then
+        echo "$n CAUGHT by $(echo "$out" | grep -ao "rule=[A-Za-z0-9.-]*" | head -1) $(echo "$out" | grep -ao "case_index=[0-9]*" | head -1)"
     else
         echo "$n MISSED $(echo "$out" | tail -2 | tr '\n' ' ')"
     fi
